@@ -27,9 +27,12 @@ def run_variant(v, props, tier):
             if r.returncode:
                 return v["name"], "PATCH-MISS", r.stdout[-200:]
         else:
-            if s.count(v["old"]) != 1:
-                return v["name"], "PATCH-MISS", f"{s.count(v['old'])} occurrences"
-            open(p, "w").write(s.replace(v["old"], v["new"]))
+            edits = v.get("edits") or [(v["old"], v["new"])]
+            for old, new in edits:
+                if s.count(old) != 1:
+                    return v["name"], "PATCH-MISS", f"{s.count(old)} occurrences of {old[:40]!r}"
+                s = s.replace(old, new)
+            open(p, "w").write(s)
         res = {}
         env = dict(os.environ, VERIF_NO_EVIDENCE="1", VERIF_OUT=d)
         for pid in props:
